@@ -309,7 +309,7 @@ class Verdict(object):
         self.violations = []     # (signature dict, message, replay path)
         self.known_hits = {}     # finding id -> count
         self.findings = [f for f in load_known_findings()
-                         if f.get('property') == pid and f.get('status', 'open') == 'open']
+                         if (f.get('property') == pid or pid in f.get('also', [])) and f.get('status', 'open') == 'open']
         self.divergences = []
         self.notes = []
         self.other_clauses = {}
